@@ -1,20 +1,31 @@
 #!/venv/bin/python
-"""C13 - persisted history: correspondence with Ptk.Model.C13 + property oracle.
+"""C13 - persisted history: correspondence with Ptk.Model.C13 / C13Fixed / C13Mem + property oracle.
 
-Four kinds of cases
+Kinds of cases
   file   : FileHistory instances on one real file (scratch dir under /verif/.work/c13):
            appends alternating between instances, History.load()/get_strings(),
            fresh-instance loads, load at EVERY truncation offset, torn write + recovery,
-           raw (garbage) file contents
+           raw (garbage) file contents, foreign lines appended between records
   codec  : str.encode('utf-8') / bytes.decode('utf-8', 'replace') vs the model's codec
-  th     : ThreadedHistory driven step by step under an explicit schedule.  The schedule is
-           enforced from the harness side only (no source hooks): `prompt_toolkit.history.threading`
-           is replaced, for the duration of one case, by a shim whose Lock / Event / Thread pause at
-           the synchronisation points, and the inner History pauses inside load_history_strings.
-           After the schedule all threads run freely and a load() in progress must complete correctly.
-  th2    : the same with two or three simultaneous load() calls (model THn); the loader thread also
-           stops after every single event.set().  The model takes the flag Gen.C13.notifyCopies, which
-           harness/gen_c13.py determines from the current tree by a behavioural probe.
+  mem    : History base class on InMemoryHistory / DummyHistory: append, load, get_strings, and the inline
+           load() generator stepped item by item with appends in between (model Hist)
+  mw     : several writers on one file: the write() calls of the real FileHistory.store_string are recorded
+           and interleaved in a prescribed order (model writeCalls / interleaveWrites)
+  th     : ThreadedHistory WITHOUT the repair of F5 (the tree today) driven step by step under an explicit
+           schedule (model TH / step).  The schedule is enforced from the harness side only (no source hooks):
+           `prompt_toolkit.history.threading` is replaced, for the duration of one case, by a shim whose
+           Lock / Event / Thread pause at the synchronisation points, and the inner History pauses inside
+           load_history_strings.  After the schedule all threads run freely and a load() in progress must
+           complete correctly.
+  thx    : ThreadedHistory WITH the repair of F5 (model THF / stepF): appends, cancellation of load(), later
+           load() calls, an inner history that raises.  Runs against the tree when its loader takes the
+           snapshot inside the lock (gen_c13 probe), else against a module built from the tree's history.py +
+           proposed_fixes/C13-threaded-append.diff.  In the first case `th` cases are translated to `thx`.
+  thm    : the repaired code with two or three simultaneous load() calls, appends, cancellations, inner failure
+           (model THm / stepM), same tree / tree + diff rule as thx
+  th2    : two or three simultaneous load() calls (model THn); the loader thread also stops after every single
+           event.set().  The model takes the flag Gen.C13.notifyCopies, which harness/gen_c13.py determines
+           from the current tree by a behavioural probe.
 """
 from __future__ import annotations
 
@@ -30,81 +41,194 @@ sys.path.insert(0, os.path.dirname(os.path.abspath(__file__)))
 import core
 from core import enc_str, enc_list
 
+import gen_c13
 import prompt_toolkit.history as H
-from prompt_toolkit.history import FileHistory, History, ThreadedHistory
+from prompt_toolkit.history import DummyHistory, FileHistory, History, InMemoryHistory, ThreadedHistory
 
 ID = "C13"
 DRIVER = "drv_c13"
-PROPS = ["Ptk.Props.C13"]
+PROPS = ["Ptk.Props.C13", "Ptk.Props.C13Fixed", "Ptk.Props.C13FixedMulti", "Ptk.Props.C13Mem", "Ptk.Props.C13Foreign"]
 ANCHORS = ["src/prompt_toolkit/history.py"]
-LEVEL_TEXT = ("Lean 4 theorems over an executable model of history.py: (a) FileHistory byte format with a concrete "
-              "UTF-8 encoder and CPython-compatible replacing decoder: load(store*(es)) = reverse(es) for all strings, "
-              "truncation at every byte offset keeps every completed entry and adds at most one damaged newest entry, "
-              "later appends re-frame correctly after a torn write or after arbitrary garbage, several caching "
-              "instances on one file; (b) ThreadedHistory as a transition system at lock/event granularity: for every "
-              "interleaving in which no append_string overlaps a load, the consumer yields exactly the inline sequence "
-              "and terminates (budget + no lost wake-up); the overlapping case is refuted on concrete schedules (known "
-              "finding F5a-c); several simultaneous load() calls at per-event.set() granularity: safety for both "
-              "variants of the notify loop, no lost wake-up and a termination bound when it iterates over a copy, and a "
-              "proved lost wake-up "
-              "(F5d, fix proposed) for the live-list iteration of the current code. Tied to /repo on every run by a "
-              "generated flag (behavioural probe of the notify loop), a differential correspondence (real files, every "
-              "truncation offset, real threads under enforced schedules) and the property oracle")
-LEVEL_NOTE = ("trusted: Lean kernel, axioms propext/Classical.choice/Quot.sound only; hand-written model (validated by "
-              "the correspondence, not proved equal to the Python); CPython bytes/str/codecs/file semantics; POSIX "
-              "append writes are contiguous; threaded part is at atomic-step granularity (partial)")
+# the functions of /repo whose bodies the Lean models follow line by line and the correspondence exercises
+# (nested helpers - `in_executor`, `add`, `write` - are part of their parents)
+MODELLED = {"src/prompt_toolkit/history.py": [
+    "History.__init__", "History.load", "History.get_strings", "History.append_string",
+    "ThreadedHistory.__init__", "ThreadedHistory.load", "ThreadedHistory._in_load_thread",
+    "ThreadedHistory.append_string", "ThreadedHistory.load_history_strings", "ThreadedHistory.store_string",
+    "InMemoryHistory.__init__", "InMemoryHistory.load_history_strings", "InMemoryHistory.store_string",
+    "DummyHistory.load_history_strings", "DummyHistory.store_string", "DummyHistory.append_string",
+    "FileHistory.load_history_strings", "FileHistory.store_string"]}
+LEVEL_TEXT = ("Lean 4 theorems over executable models of history.py. (a) FileHistory byte format with a concrete UTF-8 "
+              "encoder and CPython-compatible replacing decoder: load(store*(es)) = reverse(es) for all strings over "
+              "all code points, truncation at every byte offset keeps every completed entry and adds at most one "
+              "damaged newest entry, later appends re-frame correctly after a torn write or after arbitrary garbage, "
+              "several caching instances on one file, complete lines that do not start with '+' (comments of other "
+              "tools, blank lines, any text) anywhere between records are ignored, and several processes whose "
+              "write() calls arrive in any order read back intact when a record is ONE write() (proposed hardening; "
+              "for the per-line writes of the current code the merge of two entries is proved on a witness). "
+              "(a') History base class with InMemoryHistory / DummyHistory: cache, get_strings order, appends before / "
+              "after load for all operation sequences; the inline load() generator stepped item by item (exact over a "
+              "copy; the duplicate produced by the current live-list iteration proved on a witness). "
+              "(b) ThreadedHistory as transition systems at lock/event granularity. Code WITH the proposed repair of F5 "
+              "(append_string inserts, counts and stores inside the lock; list reset + snapshot inside the lock; load() "
+              "skips front insertions and yields them once at the end): for EVERY interleaving - any number of "
+              "concurrent append_string calls, cancelled load() calls, later load() calls, an inner history that "
+              "raises - a completed call has yielded the history as of its call, newest first, followed by the entries "
+              "appended meanwhile, each exactly once; the cache ends up exact; every append reaches the store once, in "
+              "order; every call terminates (budget + no lost wake-up); the same safety statement for ANY NUMBER of "
+              "simultaneous load() calls with appends, cancellations and inner failures at per-event.set() granularity. "
+              "Code WITHOUT the repair (the tree today): the "
+              "same for every interleaving in which no append_string overlaps a load; the overlapping case is refuted "
+              "on concrete schedules (known finding F5a-c). Several simultaneous load() calls at per-event.set() "
+              "granularity (no append_string): safety, no lost wake-up, termination bound. Tied to the source on every "
+              "run by generated behavioural flags (notify loop over a copy? append repair present? write() calls per "
+              "record? inline iteration over a copy?), a differential correspondence (real files at every truncation "
+              "offset, real threads under enforced schedules; the repaired model runs against the tree + the proposed "
+              "diff until the tree itself has the repair, then against the tree) and the property oracle")
+LEVEL_NOTE = ("trusted: Lean kernel, axioms propext/Classical.choice/Quot.sound only; hand-written models (validated by "
+              "the correspondence, not proved equal to the Python); CPython bytes/str/codecs/file/asyncio semantics; one "
+              "OS write per write() call on an append-mode file is contiguous; threaded parts are at atomic-step "
+              "granularity (partial); until proposed_fixes/C13-threaded-append.diff is committed the all-interleavings "
+              "theorems speak about tree + diff, not about the tree")
 TECHNIQUE = "Lean 4 proof over hand-written executable model + differential correspondence with the real code"
-RULE = ("file: exhaustive entry lists over the alphabet {a,+,#,LF,CR,U+2028,NUL,U+1F600} (bounds per tier) with a "
-        "fresh load and a load at every truncation offset, then seeded random op sequences (appends alternating "
-        "between 4 instances, load/get_strings, cut at a random byte + further appends, raw garbage files); "
-        "codec: boundary code points and random garbage bytes; th: every schedule of the loader / consumer / "
-        "appender steps up to the tier's depth from several initial stores, then seeded random complete schedules; "
-        "th2: two or three simultaneous load() calls, the loader stopping after every event.set(): all schedules up "
-        "to the tier's depth + random; after every th/th2 schedule the threads run freely and every load() call in "
-        "progress must complete with the inline sequence. non-trivial = a file case with at least one non-empty "
-        "entry or raw bytes, a codec case, a th case in which the consumer takes at least one step, a th2 case "
-        "with at least two load() calls")
+RULE = ("file: exhaustive entry lists over the alphabet {a,+,#,LF,CR,U+2028,NUL,U+1F600} (bounds per tier) and, shorter, "
+        "over every character str.splitlines() breaks on {LF,CR,VT,FF,FS,GS,RS,NEL,U+2028,U+2029} plus {+,#,space,a,"
+        "NUL,U+1F600}, entries of only '+' / only newlines / empty, foreign lines in front of, between and behind "
+        "records - each with a fresh load and a load at every truncation offset; then seeded random op sequences "
+        "(appends alternating between 4 instances, load/get_strings, foreign lines, cut at a random byte + further "
+        "appends, raw garbage files); codec: boundary code points and random garbage bytes; mem: every sequence of "
+        "append/load/get_strings/new generator/next item up to the tier's length on InMemoryHistory and DummyHistory; "
+        "mw: two or three writers, every order of their write() calls up to the tier's length; th (tree without the "
+        "repair) / thx (repaired code): every schedule of the loader / consumer / appender / cancel / inner-failure "
+        "steps up to the tier's depth from several initial stores, then seeded random complete schedules; th2 (no "
+        "appends) / thm (repaired code: appends, cancellations, inner failure): two or three simultaneous load() "
+        "calls, the loader stopping after every event.set(): all schedules up to the tier's depth + random; after "
+        "every th/thx/th2/thm schedule the threads run freely and every load() call in progress must "
+        "complete with the right items. non-trivial = a file case with at least one non-empty entry or raw bytes, a "
+        "codec case, a th/thx case in which the consumer takes at least one step, a th2/thm case with at least two load() "
+        "calls, a mem case with an append or initial strings, a mw case in which two writers take turns")
 EXHAUSTIVE = True
 EXHAUSTIVE_SCOPE = {
-    "quick": "file: 1 entry len<=3, 2 entries len<=1, raw files len<=3 over 9 byte symbols, every truncation "
-             "offset of each; th: ALL complete loader/consumer interleavings without appends for stores of 0 and 1 "
-             "items (2 items: all prefixes of length 12); all schedules with one concurrent append up to depth "
-             "7-8; two simultaneous load() calls: "
-             "all schedules up to depth 7 (per-event.set() granularity) + all interleavings of the final notify "
-             "loop with a finishing consumer",
-    "thorough": "file: 1 entry len<=4, 2 entries len<=2, 3 entries len<=1, raw files len<=4 over 9 byte symbols, "
-                "every truncation offset of each; th: ALL complete interleavings without appends for stores of "
-                "0, 1 and 2 items (3 items: all prefixes of length 18; with a second load() for 0-1 items); all "
-                "schedules up to depth 12 with one "
-                "concurrent append from 3 initial stores; depth 10 with two appends; two simultaneous load() "
-                "calls: all schedules up to depth 10 for stores of 0 and 1 items",
+    "quick": "file: 1 entry len<=3, 2 entries len<=1 over 8 symbols; 1 entry len<=2 and 2 entries of 1 char over the "
+             "16-symbol line-separator alphabet; 10 kinds of foreign lines x 3 entries; raw files len<=3 over 9 byte "
+             "symbols; every truncation offset of each; mem: all op sequences len<=4; mw: 2 writers x 4x4 entries, "
+             "all orders of 6 write() calls, 3 writers all orders of 5; th / thx: ALL complete loader/consumer "
+             "interleavings without appends for stores of 0 and 1 items (th, 2 items: all prefixes of length 12); all "
+             "schedules with one or two concurrent appends up to depth 6-8 (the return of the appending thread as a "
+             "step of its own: depth 6), with a cancellation + second load() up to depth 6, with a failure of the inner "
+             "history up to depth 6-9; two simultaneous load() calls: all schedules up to depth 7 (per-event.set() "
+             "granularity) + all interleavings of the final notify loop with a finishing consumer; with one append "
+             "up to depth 6, with an append and a cancellation up to depth 4",
+    "thorough": "file: 1 entry len<=4, 2 entries len<=2, 3 entries len<=1, raw files len<=4 over 9 byte symbols, the "
+                "separator alphabet and foreign lines as in quick; every truncation offset of each; mem: all op "
+                "sequences len<=5; mw: all orders of 7 write() calls; th: ALL complete interleavings without "
+                "appends for stores of 0, 1 and 2 items (3 items: all prefixes of length 18; with a second load() for "
+                "0-1 items), all schedules up to depth 12 with one concurrent append, depth 10 with two; thx: the same "
+                "without appends, depth 11 with one append, depth 9 with two, depth 8-9 with cancellation / inner "
+                "failure and a second load(), depth 8-9 with the return of the appending thread as a step of its own; "
+                "two simultaneous load() calls: all schedules up to depth 10 for stores of 0 and 1 items; with appends "
+                "/ cancellations / inner failure up to depth 6-7",
 }
 TRUSTED = ["harness/c13.py compares file bytes after every append, the loaded lists at every truncation offset, "
-           "and (strs, loaded, yielded items, events, registered event list, store, program counters) after every "
-           "scheduled step",
-           "harness/gen_c13.py: behavioural probe whether the notify loops iterate over a copy (-> Gen/C13.lean)",
-           "Ptk/Model/C13.lean is a hand translation of history.py (correspondence-checked)",
-           "the schedule shim (replacement of history.threading and the gated inner History) pauses threads only "
-           "at synchronisation points; it does not change what the code computes"]
+           "and (strs, loaded, append counter, yielded items, events, number of registered events, store, program "
+           "counters) after every scheduled step",
+           "harness/gen_c13.py: behavioural probes of the tree -> Gen/C13.lean (notify loops over a copy; F5 repair "
+           "present; write() calls per record; inline load() over a copy)",
+           "Ptk/Model/C13.lean, C13Fixed.lean, C13Mem.lean are hand translations of history.py (correspondence-checked)",
+           "the schedule shim (replacement of `threading` inside history.py and the gated inner History) pauses "
+           "threads only at synchronisation points and never while they hold the history's lock; it does not change "
+           "what the code computes",
+           "while the tree lacks the F5 repair, the repaired model is compared with a module built in memory from the "
+           "tree's history.py + proposed_fixes/C13-threaded-append.diff (skipped when the diff does not apply)",
+           "write() calls are observed by running the real store_string on a recording file object (buffer of 1 byte); "
+           "the harness interleaves them in the order the case prescribes"]
 ASSUMPTIONS = ["CPython: open(...,'ab').write appends contiguously; iteration over a binary file splits after 0x0A only",
                "bytes.decode('utf-8','replace') = the model's decoder (compared on garbage every run)",
                "str(datetime.now()) contains no newline (the correspondence injects the timestamp; the oracle uses the real clock)",
                "lone surrogates are outside the alphabet (str.encode raises; Lean Char cannot hold them)",
-               "threaded part: every code section between two synchronisation points (lock block, event.wait, each "
-               "event.set, the inner load_history_strings call, store_string) is atomic; the inner history takes its "
-               "snapshot in one step (true for FileHistory and InMemoryHistory); a Python list iterator is an index "
-               "into the live list"]
-PARTIAL_SCOPE = ["ThreadedHistory: real preemption inside a step and an inner history that reads lazily are not modelled",
-                 "several simultaneous load() calls: modelled without append_string; no-lost-wake-up and the "
-                 "termination bound are proved for the notify loop over a copy (proposed fix), for the current "
-                 "live-list loop the lost wake-up is proved instead; a cancelled (aclose) load() is not modelled",
-                 "entries appended while a load() is in progress: property is FALSE (F5, known findings) - theorems "
-                 "cover exactly the schedules without such an overlap",
-                 "concurrent writers from different processes (interleaved partial writes) not modelled",
-                 "InMemoryHistory / DummyHistory only through the base-class model"]
+               "threaded parts: every code section between two synchronisation points (lock block, event.wait, each "
+               "event.set, the inner load_history_strings call / first item, store_string) is atomic; the inner history "
+               "looks at its storage when load_history_strings() is called or its first item is requested and not "
+               "again later (true for FileHistory, InMemoryHistory, any generator over a snapshot); a Python list "
+               "iterator is an index into the live list; load()'s lock-free read of the append counter is equivalent "
+               "to a read under the lock (CPython attribute reads are atomic; shown in the model comment)",
+               "several processes: every write() call on the append-mode file is one contiguous OS write (the file "
+               "object's buffer can only merge calls, which removes interleavings)"]
+PARTIAL_SCOPE = ["ThreadedHistory: real preemption inside a step is not modelled; an inner history that re-reads its "
+                 "storage lazily after its first item is not modelled",
+                 "entries appended while a load() is in progress: FALSE of the tree until "
+                 "proposed_fixes/C13-threaded-append.diff is committed (F5, known findings) - the theorems about the "
+                 "tree's code cover exactly the schedules without such an overlap; the all-interleavings theorems are "
+                 "about the repaired code, whose correspondence runs against tree + diff",
+                 "several simultaneous load() calls together with append_string / cancellation / inner failure: SAFETY is "
+                 "proved for the repaired code (THm); no-lost-wake-up and the termination bound are proved for several "
+                 "calls without those (THn) and for one call at a time with all of them (THF), not for the combination",
+                 "cancellation is driven on the real code while load() waits in one of its two run_in_executor awaits; "
+                 "a close while it is suspended at `yield` is the same step in the model but is not driven",
+                 "concurrent writers from different processes: at write()-call granularity only; interleaved partial "
+                 "records are outside the statement of the property (appends 'alternating') - with the current "
+                 "per-line writes two entries can merge (Lean witness; reproduced with two real processes and entries "
+                 "> 8 KiB); hardening proposed_fixes/C13-store-single-write.diff",
+                 "inline History.load() with an append between two of its items yields an item twice (live-list "
+                 "iteration; Lean witness, compared with the model); outside the statement: the exactly-once clause "
+                 "is about background loading"]
 
 SCRATCH = os.path.join(core.WORK, "c13")
+FIX_DIFF = os.path.join(core.ROOT, "proposed_fixes", "C13-threaded-append.diff")
+
+# Which model of ThreadedHistory is compared with the tree?  The repaired one (`stepF`) as soon as the
+# tree's loader thread takes the inner snapshot inside the lock (behavioural probe, see gen_c13.py) - a
+# tree that has only a part of the repair is then compared with the full repair and fails; the model of
+# the code with F5 (`step`) otherwise.
+FIXED = gen_c13.probe_append_parts(H)["snapshot"]
+_HFIX = [None, False]
+
+
+def fixed_module():
+    """the history module WITH the repair of F5: the tree's own module when it has the repair,
+    otherwise a module built from the tree's current history.py + proposed_fixes/C13-threaded-append.diff
+    (None when the diff does not apply to the current source or the result does not behave as repaired;
+    the `thx` cases are then not generated)"""
+    if _HFIX[1]:
+        return _HFIX[0]
+    _HFIX[1] = True
+    if FIXED:
+        _HFIX[0] = H
+        return H
+    try:
+        import subprocess
+        import types
+
+        src = os.path.join(core.REPO, "src", "prompt_toolkit", "history.py")
+        os.makedirs(SCRATCH, exist_ok=True)
+        outp = os.path.join(SCRATCH, "history_fixed_%d.py" % os.getpid())
+        try:
+            r = subprocess.run(["patch", "-s", "-f", "-o", outp, src, FIX_DIFF], capture_output=True, text=True,
+                               timeout=60)
+            if r.returncode != 0:
+                return None
+            text = open(outp, encoding="utf-8").read()
+        finally:
+            for junk in (outp, outp + ".rej", outp + ".orig"):
+                if os.path.exists(junk):
+                    os.unlink(junk)
+        mod = types.ModuleType("prompt_toolkit._c13_history_with_proposed_fix")
+        mod.__file__ = src + " + " + FIX_DIFF
+        exec(compile(text, mod.__file__, "exec"), mod.__dict__)
+        if not gen_c13.probe_append_fixed(mod):
+            return None
+        _HFIX[0] = mod
+    except Exception:
+        _HFIX[0] = None
+    return _HFIX[0]
+
 ALPHA = ["a", "+", "#", "\n", "\r", "\u2028", "\x00", "\U0001F600"]
+# every character str.splitlines() breaks on, and the ones the format itself uses
+SEP_ALPHA = ["\n", "\r", "\x0b", "\x0c", "\x1c", "\x1d", "\x1e", "\x85", "\u2028", "\u2029", "+", "#", " ", "a",
+             "\x00", "\U0001F600"]
+# complete lines that do not start with '+' (comments of other tools, blank lines, text, invalid UTF-8)
+FOREIGN_LINES = [b"# written by another tool\n", b"\n", b"#\n", b"hello +x\n", b" +indented\n", b"\xff\xfe+\n",
+                 b"\xc3\xa9+\n", b"#+\n", b"\r\n", b"\x00+\n"]
 RAND_ALPHA = ["a", "b", "+", "+", "#", "\n", "\n", "\n", "\r", "\u2028", "\u2029", "\x85", "\x0b", "\x0c",
               "\x1c", "\x00", "\U0001F600", "\U0010FFFF", "\ud7ff", "\ue000", "\uffff", "\ufeff", "\ufffd",
               "\u00e9", "\u4e16", " ", "\t", "\x7f", "\x80", "\u07ff", "\u0800", "\U00010000", "\x1b"]
@@ -238,6 +362,10 @@ def file_impl(case):
             elif k == "raw":
                 write_bytes(path, bytes(op[1]))
                 out.append("ok")
+            elif k == "rawapp":
+                with open(path, "ab") as f:
+                    f.write(bytes(op[1]))
+                out.append(enc_bytes(read_bytes(path)))
             else:
                 raise ValueError(op)
     finally:
@@ -259,9 +387,212 @@ def file_model_lines(case):
             out.append(f"cutb {op[1]}")
         elif k == "raw":
             out.append("fraw " + enc_bytes(op[1]))
+        elif k == "rawapp":
+            out.append("frawapp " + enc_bytes(op[1]))
         else:
             raise ValueError(op)
     return out
+
+
+# ------------------------------------------------------------------ real code: base class, in-memory backends
+def mem_impl(case):
+    h = InMemoryHistory(list(case["init"])) if case["backend"] == "mem" else DummyHistory()
+    loop = asyncio.new_event_loop()
+    g = {"gen": None, "pc": "none", "out": []}
+
+    def line():
+        return (f"loaded={1 if h._loaded else 0} strs={enc_strs(h._loaded_strings)} g={g['pc']} "
+                f"out={enc_strs(g['out'])}")
+
+    out = [line()]
+    try:
+        for op in case["ops"]:
+            k = op[0]
+            if k == "app":
+                h.append_string(op[1])
+                out.append(line())
+            elif k == "load":
+                out.append(enc_strs(collect_load(h)))
+            elif k == "get":
+                out.append(enc_strs(h.get_strings()))
+            elif k == "gnew":
+                g["gen"], g["pc"], g["out"] = h.load(), "fresh", []
+                out.append(line())
+            elif k == "gnext":
+                if g["pc"] != "none":
+                    try:
+                        g["out"].append(loop.run_until_complete(g["gen"].__anext__()))
+                        g["pc"] = "iter"
+                    except StopAsyncIteration:
+                        g["pc"] = "none"
+                out.append(line())
+            else:
+                raise ValueError(op)
+    finally:
+        loop.close()
+    return out
+
+
+def mem_model_lines(case):
+    out = ["hnew mem " + enc_strs(case["init"]) if case["backend"] == "mem" else "hnew dummy"]
+    for op in case["ops"]:
+        out.append("h app " + enc_str(op[1]) if op[0] == "app" else "h " + op[0])
+    return out
+
+
+def mem_oracle(case):
+    """base class + in-memory backends, stated directly: load() yields everything that was given to the
+    constructor or appended, newest first, each once; get_strings() is the same oldest first once a
+    load() happened (before: what was appended so far); DummyHistory never has anything."""
+    v = []
+    dummy = case["backend"] != "mem"
+    h = DummyHistory() if dummy else InMemoryHistory(list(case["init"]))
+    appended = []
+    loaded = False
+
+    def bad(site, cond, msg):
+        v.append({"signature": f"{site} | {cond}", "msg": msg})
+
+    for op in case["ops"]:
+        k = op[0]
+        if k == "app":
+            h.append_string(op[1])
+            appended.append(op[1])
+        elif k == "load":
+            got = collect_load(h)
+            loaded = True
+            exp = [] if dummy else (list(case["init"]) + appended)[::-1]
+            if got != exp:
+                bad("History.load", "dummy yields something" if dummy else "in-memory roundtrip",
+                    f"init={case['init']!r} ops={case['ops']!r}: load() gave {got!r}, expected {exp!r}")
+        elif k == "get":
+            got = h.get_strings()
+            exp = [] if dummy else ((list(case["init"]) if loaded else []) + appended)
+            if got != exp:
+                bad("History.get_strings", "order / content",
+                    f"init={case['init']!r} ops={case['ops']!r}: get_strings() gave {got!r}, expected {exp!r}")
+        # gnew / gnext (a consumer that appends between two items of the inline generator): outside the
+        # statement of the property - compared with the model only
+    return v
+
+
+# ------------------------------------------------------------------ real code: write() calls, several processes
+class _RecRaw(__import__("io").RawIOBase):
+    def __init__(self, calls):
+        super().__init__()
+        self.calls = calls
+
+    def writable(self):
+        return True
+
+    def write(self, b):
+        self.calls.append(bytes(b))
+        return len(b)
+
+
+def store_write_calls(ts, s):
+    """the write() calls FileHistory.store_string issues for one entry, as they reach an unbuffered
+    file: the real method runs with `open` (in history.py only) replaced by a recording file object"""
+    import io
+
+    calls = []
+    real_open = open
+
+    def fake_open(file, mode="r", *a, **k):
+        if "a" in mode and "b" in mode:
+            return io.BufferedWriter(_RecRaw(calls), buffer_size=1)
+        return real_open(file, mode, *a, **k)
+
+    clock = _FixedClock()
+    clock.ts = ts
+    real_dt = H.datetime
+    had = "open" in H.__dict__
+    old = H.__dict__.get("open")
+    H.datetime = clock
+    H.open = fake_open
+    try:
+        FileHistory(os.path.join(scratch(), "mw-unused")).store_string(s)
+    finally:
+        H.datetime = real_dt
+        if had:
+            H.open = old
+        else:
+            del H.open
+    return calls
+
+
+def mw_file(case):
+    """(file bytes, per process the chunk lists of its entries)"""
+    queues, per_entry = [], []
+    for proc in case["procs"]:
+        q, pe = [], []
+        for ts, s in proc:
+            calls = store_write_calls(ts, s)
+            pe.append(len(calls))
+            q += calls
+        queues.append(q)
+        per_entry.append(pe)
+    data = b""
+    for i in case["order"]:
+        if i < len(queues) and queues[i]:
+            data += queues[i].pop(0)
+    return data, per_entry
+
+
+def mw_impl(case):
+    data, _ = mw_file(case)
+    path = os.path.join(scratch(), "mw")
+    write_bytes(path, data)
+    return [enc_bytes(data) + " | " + safe_fresh_load(path)]
+
+
+def mw_model_lines(case):
+    toks = ["mw", str(len(case["procs"]))]
+    for proc in case["procs"]:
+        toks.append(str(len(proc)))
+        for ts, s in proc:
+            toks += [enc_str(ts), enc_str(s)]
+    toks.append(enc_bytes(case["order"]))
+    return [" ".join(toks)]
+
+
+def mw_oracle(case):
+    """several processes on one file.  Stated by the property: loading never fails; and when every
+    record reaches the file in one piece (the calls of one store_string are not separated by another
+    process - "alternating" appends) every entry is read back, in arrival order.  Interleaved partial
+    records are outside the statement (compared with the model only; see multi_write_interleave_merges)."""
+    v = []
+    data, per_entry = mw_file(case)
+    path = os.path.join(scratch(), "mwo")
+    write_bytes(path, data)
+    try:
+        got = list(FileHistory(path).load_history_strings())
+    except Exception as e:
+        return [{"signature": "FileHistory.load_history_strings | raises",
+                 "msg": f"{case!r}: {type(e).__name__}: {e}"}]
+    # replay the order on (process, entry, chunk) triples
+    pos = [[0, 0] for _ in case["procs"]]
+    arrival, cur, atomic = [], None, True
+    for i in case["order"]:
+        if i >= len(pos):
+            continue
+        e, c = pos[i]
+        if e >= len(per_entry[i]):
+            continue
+        if cur is not None and cur != (i, e):
+            atomic = False
+        cur = (i, e)
+        c += 1
+        if c == per_entry[i][e]:
+            arrival.append(case["procs"][i][e][1])
+            pos[i] = [e + 1, 0]
+            cur = None
+        else:
+            pos[i] = [e, c]
+    if atomic and cur is None and got != arrival[::-1]:
+        v.append({"signature": "FileHistory | several writers, whole records alternating: roundtrip",
+                  "msg": f"{case!r}: loaded {got!r}, stored in this order {arrival!r}"})
+    return v
 
 
 # ------------------------------------------------------------------ real code: codec
@@ -292,23 +623,35 @@ class Sched:
         self.grant = {}
         self.finished = set()
         self.free = False
+        self.freed = set()       # roles that run on without stopping (stragglers of cancelled calls)
         self.set_pauses = False  # also stop the loader after every single event.set()
 
     def pause(self, role, point):
+        if getattr(_tls, "inlock", False):
+            return               # never stop a thread while it holds the history's lock
         with self.cv:
-            if self.free:
+            if self.free or role in self.freed:
                 return
             self.at[role] = point
             self.cv.notify_all()
             n = 0
-            while not self.free and self.grant.get(role, 0) == 0:
+            while not self.free and role not in self.freed and self.grant.get(role, 0) == 0:
                 self.cv.wait(timeout=1.0)
                 n += 1
                 if n > 60:
                     self.free = True  # the harness is gone: let everything run out
                     self.cv.notify_all()
-            if not self.free:
+            if not self.free and role not in self.freed:
                 self.grant[role] -= 1
+            elif role in self.freed:
+                self.at.pop(role, None)
+
+    def let_go(self, role):
+        """the role never stops again"""
+        with self.cv:
+            self.freed.add(role)
+            self.at.pop(role, None)
+            self.cv.notify_all()
 
     def finish(self, role):
         with self.cv:
@@ -344,9 +687,14 @@ class GLock:
         if r is not None and r.startswith("C"):
             self.s.pause(r, "lock")
         self.l.acquire()
+        _tls.inlock = True
         return self
 
+    def locked(self):
+        return self.l.locked()
+
     def __exit__(self, *a):
+        _tls.inlock = False
         self.l.release()
         r = _role()
         if r is not None:
@@ -394,6 +742,8 @@ def make_shim(sched):
             try:
                 sched.pause("L", "start")
                 super().run()
+            except GatedFailure:
+                pass             # the failure injected into the inner history (no traceback on stderr)
             finally:
                 sched.finish("L")
 
@@ -411,26 +761,39 @@ def make_shim(sched):
     return Shim
 
 
+class GatedFailure(Exception):
+    """raised by the inner history when the schedule says so"""
+
+
 class GatedHistory(History):
     """inner history: persistent list, snapshot on load (like InMemoryHistory / FileHistory),
-    pausing the loader thread before the snapshot and before every item"""
+    pausing the loader thread before the snapshot and before every item; `fail` makes it raise at
+    the next of these points"""
 
     def __init__(self, sched, storage):
         super().__init__()
         self.s = sched
         self._storage = list(storage)
+        self.fail = False
+        self.snap = None
+
+    def _point(self, gated, name):
+        if gated:
+            self.s.pause("L", name)
+            if self.fail:
+                self.fail = False
+                raise GatedFailure(name)
 
     def load_history_strings(self):
         gated = _role() == "L"
-        if gated:
-            self.s.pause("L", "called")
+        self._point(gated, "called")
         snap = self._storage[::-1]
-        for item in snap:
-            if gated:
-                self.s.pause("L", "yield")
-            yield item
         if gated:
-            self.s.pause("L", "end")
+            self.snap = list(snap)
+        for item in snap:
+            self._point(gated, "yield")
+            yield item
+        self._point(gated, "end")
 
     def store_string(self, string):
         self._storage.append(string)
@@ -614,6 +977,8 @@ class ThRun2:
         self.cthreads = {}
         self.threads = []
         self.final = False
+        # the repaired code stops at other points (reset + snapshot are one locked block)
+        self.ld = LoaderF(self.s, self.inner) if FIXED else None
 
     def _consume(self, role, out):
         _tls.owner = role
@@ -650,7 +1015,10 @@ class ThRun2:
                 self.threads.append(t)
                 t.start()
                 s.wait_quiet(role)
-                s.wait_quiet("L")
+                if self.ld is not None:
+                    self.ld.started()
+                else:
+                    s.wait_quiet("L")
                 return
             need = {"wait": "wait", "read": "lock", "yield": "unlocked"}[what]
             if s.at.get(role) == need:
@@ -658,6 +1026,9 @@ class ThRun2:
                 s.wait_quiet(role)
                 if role in s.finished:
                     self.cthreads[role].join(10)
+        elif op[0] == "l" and self.ld is not None:
+            if op[1] != "snap" and self.ld.phase != "none":
+                self.ld.step(op[1])
         elif op[0] == "l":
             what = op[1]
             need = {"reset": "start", "snap": "called", "append": "yield", "notify": "unlocked",
@@ -678,7 +1049,9 @@ class ThRun2:
     def line(self):
         s = self.s
         la = s.at.get("L")
-        if self.th._load_thread is None:
+        if self.ld is not None:
+            lpc = self.ld.pc()
+        elif self.th._load_thread is None:
             lpc = "-"
         elif "L" in s.finished:
             lpc = "fin"
@@ -708,6 +1081,786 @@ class ThRun2:
     close = ThRun.close
 
 
+# ------------------------------------------------------------------ real code WITH the repair of F5
+class LoaderF:
+    """drives the loader thread of the REPAIRED code from one synchronisation point to the next.
+    Its stops: "start" (thread created) | "unlocked" after the locked reset+snapshot block | "unlocked"
+    after every locked item append | "set" after every event.set() (only with `set_pauses`) | "yield" /
+    "end" inside the inner generator from the second item on (the first item is requested inside the
+    lock, where nothing stops) | "unlocked" after `_loaded = True`."""
+
+    PC = {"none": "-", "start": "start", "reset": "iter", "iter": "iter", "end": "iter", "appended": "notify",
+          "final": "notifyFinal", "loop": "loop", "loopFinal": "loopFinal", "fin": "fin"}
+
+    def __init__(self, sched, inner):
+        self.s = sched
+        self.inner = inner
+        self.phase = "none"
+        self.failpending = False   # `.lfail` while the generator is suspended: it raises when resumed
+        self.failed = False
+        self.nappended = 0
+
+    def started(self):
+        self.s.wait_quiet("L")
+        if self.phase == "none":
+            self.phase = "start"
+
+    def pc(self):
+        return self.PC[self.phase]
+
+    def remaining(self):
+        if self.failpending or self.inner.snap is None:
+            return 0
+        return len(self.inner.snap) - self.nappended
+
+    def _go(self):
+        self.s.release("L")
+        self.s.wait_quiet("L")
+        if "L" in self.s.finished:
+            return "fin"
+        return self.s.at.get("L")
+
+    def step(self, what):
+        """what: reset | append | notify | set | done | final | fail; a step that is not enabled is a no-op"""
+        ph = self.phase
+        if what == "reset":
+            if ph == "start":
+                at = self._go()
+                assert at == "unlocked", at
+                self.phase = "reset"
+        elif what == "fail":
+            if ph == "start":
+                self.inner.fail = True
+                at = self._go()
+                assert at == "unlocked", at
+                self.inner.snap = []
+                self.failed = True
+                self.phase = "reset"
+            elif ph == "iter" and not self.failpending:
+                # the generator is suspended before its next item: it raises as soon as it is resumed,
+                # which the code does in one go with `finally:` (= the following `done` step)
+                self.failpending = True
+                self.failed = True
+                self.inner.fail = True
+        elif what == "append":
+            if (ph == "reset" or ph == "iter") and self.remaining() > 0:
+                at = self._go()
+                assert at == "unlocked", at
+                self.nappended += 1
+                self.phase = "appended"
+        elif what == "notify":
+            if ph == "appended":
+                self.phase = self._after_set(self._go(), False)
+        elif what == "set":
+            if ph == "loop":
+                self.phase = self._after_set(self._go(), False)
+            elif ph == "loopFinal":
+                self.phase = self._after_set(self._go(), True)
+        elif what == "done":
+            if ph in ("reset", "iter", "end") and self.remaining() == 0:
+                at = self._go()
+                assert at == "unlocked", at
+                self.phase = "final"
+        elif what == "final":
+            if ph == "final":
+                self.phase = self._after_set(self._go(), True)
+        else:
+            raise ValueError(what)
+
+    @staticmethod
+    def _after_set(at, final):
+        if at == "set":
+            return "loopFinal" if final else "loop"
+        if at == "fin":
+            assert final
+            return "fin"
+        assert not final, at
+        return {"yield": "iter", "end": "end"}[at]
+
+
+class ThRunX:
+    """the repaired ThreadedHistory of module `M` under an explicit schedule: one load() call at a time
+    (any number of them one after the other, each with its own role C0, C1, ...), cancellation,
+    append_string (atomic), an inner history that raises.  Model: `THF` / `stepF`."""
+
+    def __init__(self, M, old, pre):
+        self.M = M
+        self.s = Sched()
+        self.real_threading = M.threading
+        M.threading = make_shim(self.s)
+        self.inner = GatedHistory(self.s, old)
+        self.th = M.ThreadedHistory(self.inner)
+        for p in pre:
+            self.th.append_string(p)
+        self.ld = LoaderF(self.s, self.inner)
+        self.ncalls = 0
+        self.role = None          # role of the load() call in progress
+        self.out = []
+        self.threads = []
+        self.tasks = {}
+        self.cthread = None
+        self.athread = None
+
+    def _append(self, string):
+        """append_string in a thread of its own: it stops once, right after it has left the lock - with the
+        repair everything (insert, count, store) has happened by then"""
+        self._afinish()
+        s = self.s
+
+        def go():
+            _tls.role = "A"
+            try:
+                self.th.append_string(string)
+            finally:
+                s.finish("A")
+
+        s.finished.discard("A")
+        self.athread = threading.Thread(target=go, daemon=True)
+        self.threads.append(self.athread)
+        self.athread.start()
+        s.wait_quiet("A")
+
+    def _afinish(self):
+        if self.athread is not None:
+            s = self.s
+            if "A" not in s.finished and s.at.get("A") is not None:
+                s.release("A")
+                s.wait_quiet("A")
+            self.athread.join(10)
+            self.athread = None
+
+    def _consume(self, role, out):
+        _tls.owner = role
+        loop = asyncio.new_event_loop()
+
+        def init():
+            _tls.role = role
+
+        ex = ThreadPoolExecutor(max_workers=1, initializer=init)
+        loop.set_default_executor(ex)
+
+        async def go():
+            async for item in self.th.load():
+                out.append(item)
+
+        try:
+            task = loop.create_task(go())
+            self.tasks[role] = (loop, task)
+            try:
+                loop.run_until_complete(task)
+            except asyncio.CancelledError:
+                pass
+        finally:
+            self.s.finish(role)
+            ex.shutdown(wait=False)
+            try:
+                loop.close()
+            except Exception:
+                pass
+
+    def cons_active(self):
+        return self.role is not None and self.role not in self.s.finished
+
+    def step(self, op):
+        s = self.s
+        k = op[0]
+        self.did = False          # did this step do anything (was it enabled)?
+        if k == "cstart":
+            if self.cons_active():
+                return
+            self.did = True
+            role = "C%d" % self.ncalls
+            self.ncalls += 1
+            self.role = role
+            self.out = []
+            self.cthread = threading.Thread(target=self._consume, args=(role, self.out), daemon=True)
+            self.threads.append(self.cthread)
+            self.cthread.start()
+            s.wait_quiet(role)
+            self.ld.started()
+        elif k in ("cwait", "cread", "cyield"):
+            need = {"cwait": "wait", "cread": "lock", "cyield": "unlocked"}[k]
+            if self.cons_active() and s.at.get(self.role) == need:
+                self.did = True
+                s.release(self.role)
+                s.wait_quiet(self.role)
+                if self.role in s.finished:
+                    self.cthread.join(10)
+        elif k == "ccancel":
+            if self.cons_active():
+                self.did = True
+                loop, task = self.tasks[self.role]
+                loop.call_soon_threadsafe(task.cancel)
+                with s.cv:
+                    s.cv.wait_for(lambda: self.role in s.finished, timeout=30)
+                s.let_go(self.role)      # the executor job that was under way runs out on its own
+                self.cthread.join(10)
+        elif k in ("lreset", "lappend", "lnotify", "ldone", "lfinal", "lfail"):
+            if self.ld.phase != "none":
+                self.ld.step(k[1:])
+        elif k == "app":
+            self._append(op[1])
+        elif k == "afin":
+            self._afinish()
+        elif k == "nop":
+            pass
+        else:
+            raise ValueError(op)
+
+    def line(self):
+        s = self.s
+        if self.role is None:
+            cpc = "-"
+        elif self.role in s.finished:
+            cpc = "done"
+        else:
+            cpc = {"wait": "wait", "lock": "read", "unlocked": "yield"}[s.at.get(self.role)]
+        evs = list(self.th._string_load_events)
+        if cpc in ("wait", "read", "yield"):
+            ev = ("1" if evs[0].is_set() else "0") if len(evs) == 1 else "?%d" % len(evs)
+        else:
+            ev = "N"
+        return (f"L={self.ld.pc()} C={cpc} ev={ev} loaded={1 if self.th._loaded else 0} "
+                f"ins={getattr(self.th, '_appended_count', '?')} nev={len(evs)} "
+                f"strs={enc_strs(self.th._loaded_strings)} out={enc_strs(self.out)} "
+                f"store={enc_strs(self.inner._storage)}")
+
+    def close(self):
+        self.s.set_free()
+        for n in range(400):
+            alive = [t for t in self.threads if t.is_alive()]
+            lt = self.th._load_thread
+            if lt is not None and lt.is_alive():
+                alive.append(lt)
+            if not alive:
+                break
+            alive[0].join(0.05 if n else 0.3)
+            if alive[0].is_alive():
+                if lt is None or not lt.is_alive():
+                    self.th._loaded = True
+                for ev in list(self.th._string_load_events):
+                    ev.set()
+        self.M.threading = self.real_threading
+
+
+X_OPS = ("cstart", "cwait", "cread", "cyield", "ccancel", "lreset", "lappend", "lnotify", "ldone", "lfinal",
+         "lfail", "nop", "afin")
+
+
+def thx_impl(case, observer=None, finale=None):
+    M = fixed_module()
+    if M is None:
+        raise RuntimeError("no repaired history module available")
+    real_threading = M.threading
+    out = []
+    r = None
+    try:
+        r = ThRunX(M, case["old"], case["pre"])
+        out.append(r.line())
+        for op in case["ops"]:
+            r.step(op)
+            out.append(r.line())
+            if observer:
+                observer(r, op)
+        if finale:
+            finale(r)
+    finally:
+        if r is not None:
+            r.close()
+        M.threading = real_threading
+    return out
+
+
+def thx_model_lines(case):
+    out = ["xnew " + enc_strs(case["old"]) + " " + enc_strs(case["pre"])]
+    for op in case["ops"]:
+        if op[0] == "app":
+            out.append("x app " + enc_str(op[1]))
+        else:
+            assert op[0] in X_OPS, op
+            # `afin` (the appending thread returns): nothing is left to happen in the repaired code
+            out.append("x nop" if op[0] == "afin" else "x " + op[0])
+    return out
+
+
+def th_to_thx(case):
+    """a `th` case (steps of the code with F5) as steps of the repaired code"""
+    ops = []
+    for op in case["ops"]:
+        if op[0] == "ains":
+            ops.append(["app", op[1]])
+        elif op[0] == "astore":
+            ops.append(["afin"])
+        elif op[0] == "lsnap":
+            ops.append(["nop"])
+        else:
+            ops.append([op[0]])
+    return {"kind": "thx", "old": case["old"], "pre": case["pre"], "ops": ops}
+
+
+def thx_oracle(case):
+    """The property on the repaired ThreadedHistory under the case's schedule, stated over what was
+    appended when (the harness executes the steps one after the other, so it knows):
+      * a load() call that runs to its end has yielded every entry that was in the history at its final
+        locked read exactly once - nothing twice, nothing missing, nothing else;
+      * the entries that were in the history when load() was called come in the inline order (newest
+        first); without an append in between the whole sequence is the inline sequence;
+      * when the loader thread is done, get_strings() is the whole history, every entry once, in order;
+      * no event stays registered after a call ended or was cancelled;
+      * after the schedule all threads run freely: a call in progress completes.
+    (an inner history that raised: only "completes", "nothing twice", "prefix order")"""
+    v = []
+    tag = "" if FIXED else "[/repo + proposed_fixes/C13-threaded-append.diff] "
+    st = {"hist": list(case["old"]) + list(case["pre"]), "at_call": None, "at_read": None, "failed": False,
+          "checked": True}
+
+    def bad(site, cond, msg):
+        v.append({"signature": f"{tag}{site} | {cond}", "msg": msg})
+
+    def check_completed(r):
+        got = list(r.out)
+        exp = list(st["at_read"] if st["at_read"] is not None else st["hist"])
+        v0 = list(st["at_call"])[::-1]
+        msg = (f"old={case['old']!r} pre={case['pre']!r} schedule={case['ops']!r}: yielded {got!r}; history at "
+               f"the call {v0!r}, at the final read {exp[::-1]!r}")
+        if sorted({x for x in got if got.count(x) > 1}):
+            bad("ThreadedHistory.load", "entry yielded twice", msg)
+        if st["failed"]:
+            if [x for x in got if x in v0] != v0[:len([x for x in got if x in v0])]:
+                bad("ThreadedHistory.load", "inner history raised: order", msg)
+            return
+        if [x for x in exp if x not in got]:
+            bad("ThreadedHistory.load", "entry never yielded", msg)
+        if [x for x in got if x not in exp]:
+            bad("ThreadedHistory.load", "yields an entry that was not appended before its final read", msg)
+        if [x for x in got if x in v0] != v0:
+            bad("ThreadedHistory.load", "order of the entries that existed at the call", msg)
+        if len(exp) == len(v0) and got != v0:
+            bad("ThreadedHistory.load", "differs from inline load (no append meanwhile)", msg)
+
+    def observer(r, op):
+        k = op[0]
+        if k == "app":
+            st["hist"].append(op[1])
+        elif k == "lfail":
+            st["failed"] = r.ld.failed
+        elif k == "cstart" and r.role is not None and st.get("role") != r.role:
+            st["role"] = r.role
+            st["at_call"] = list(st["hist"])
+            st["at_read"] = None
+            st["read_done"] = False
+            st["checked"] = False
+        elif k == "cread" and r.did:
+            st["at_read"] = list(st["hist"])
+            st["read_done"] = bool(r.th._loaded)
+        elif k == "ccancel":
+            st["checked"] = True
+        if not st["checked"] and r.role is not None and r.role in r.s.finished:
+            st["checked"] = True
+            check_completed(r)
+        if not r.cons_active() and r.th._string_load_events:
+            bad("ThreadedHistory.load", "event stays registered after the call ended",
+                f"schedule={case['ops']!r}: {len(r.th._string_load_events)} event(s) left")
+        if r.ld.phase == "fin" and not st["failed"]:
+            if r.th.get_strings() != st["hist"]:
+                bad("ThreadedHistory.get_strings", "cache differs from the history after loading",
+                    f"schedule={case['ops']!r}: get_strings()={r.th.get_strings()!r} history={st['hist']!r}")
+
+    def finale(r):
+        global _TH_HANG
+        if _TH_HANG:
+            return
+        final_read_seen = (r.cons_active() and r.s.at.get(r.role) == "unlocked" and st.get("read_done"))
+        r.s.set_free()
+        if r.cons_active():
+            if not _await_consumer(r.th, r.cthread, lambda: list(r.th._string_load_events), 20):
+                _TH_HANG = True
+                bad("ThreadedHistory.load", "never completes",
+                    f"old={case['old']!r} pre={case['pre']!r} after schedule {case['ops']!r} the threads ran "
+                    f"freely and load() did not finish; yielded {list(r.out)!r}")
+                return
+            if not st["checked"]:
+                st["checked"] = True
+                if not final_read_seen:
+                    st["at_read"] = None   # the final read happened in the free phase: everything appended
+                check_completed(r)
+        lt = r.th._load_thread
+        if lt is not None:
+            lt.join(10)
+            if not lt.is_alive() and not st["failed"] and r.th.get_strings() != st["hist"]:
+                bad("ThreadedHistory.get_strings", "cache differs from the history after loading",
+                    f"schedule={case['ops']!r}: get_strings()={r.th.get_strings()!r} history={st['hist']!r}")
+
+    lines = thx_impl(case, observer, finale)
+    if any(l.startswith("impl-exception") for l in lines):
+        bad("ThreadedHistory", "exception", str(lines[-1]))
+    return v
+
+
+# ------------------------------------------------------------------ repaired code, several simultaneous load() calls
+class ThRunM(ThRunX):
+    """the repaired ThreadedHistory with up to NCONS simultaneous load() calls (each index started once),
+    the loader stopping after every single event.set(), append_string, cancellation, inner failure.
+    Model: `THm` / `stepM`.  ops: ["c", i, "start"|"wait"|"read"|"yield"|"cancel"], ["l", "reset"|"append"|
+    "notify"|"set"|"done"|"final"|"fail"], ["app", s], ["afin"], ["nop"]."""
+
+    NCONS = 3
+
+    def __init__(self, M, old, pre):
+        super().__init__(M, old, pre)
+        self.s.set_pauses = True
+        self.outs = {}
+        self.cthreads = {}
+
+    def active(self, role):
+        return role in self.cthreads and role not in self.s.finished
+
+    def step(self, op):
+        s = self.s
+        self.did = False
+        k = op[0]
+        if k == "c":
+            role, what = "C%d" % op[1], op[2]
+            if what == "start":
+                if role in self.cthreads:
+                    return
+                self.did = True
+                self.outs[role] = []
+                t = threading.Thread(target=self._consume, args=(role, self.outs[role]), daemon=True)
+                self.cthreads[role] = t
+                self.threads.append(t)
+                t.start()
+                s.wait_quiet(role)
+                self.ld.started()
+            elif what == "cancel":
+                if self.active(role):
+                    self.did = True
+                    loop, task = self.tasks[role]
+                    loop.call_soon_threadsafe(task.cancel)
+                    with s.cv:
+                        s.cv.wait_for(lambda: role in s.finished, timeout=30)
+                    s.let_go(role)
+                    self.cthreads[role].join(10)
+            else:
+                need = {"wait": "wait", "read": "lock", "yield": "unlocked"}[what]
+                if self.active(role) and s.at.get(role) == need:
+                    self.did = True
+                    s.release(role)
+                    s.wait_quiet(role)
+                    if role in s.finished:
+                        self.cthreads[role].join(10)
+        elif k == "l":
+            if self.ld.phase != "none":
+                self.ld.step(op[1])
+        elif k == "app":
+            self._append(op[1])
+        elif k == "afin":
+            self._afinish()
+        elif k == "nop":
+            pass
+        else:
+            raise ValueError(op)
+
+    def line(self):
+        s = self.s
+        evs = list(self.th._string_load_events)
+        owners = [getattr(e, "owner", None) for e in evs]
+        parts = []
+        for i in range(self.NCONS):
+            role = "C%d" % i
+            if role not in self.cthreads:
+                parts.append("- N 0")
+                continue
+            if role in s.finished:
+                cpc, ev = "done", "N"
+            else:
+                cpc = {"wait": "wait", "lock": "read", "unlocked": "yield"}[s.at.get(role)]
+                mine = [e for e in evs if getattr(e, "owner", None) == role]
+                ev = ("1" if mine[0].is_set() else "0") if len(mine) == 1 else "?%d" % len(mine)
+            parts.append(f"{cpc} {ev} {enc_strs(self.outs[role])}")
+        ids = [o[1:] if isinstance(o, str) and o.startswith("C") else "?" for o in owners]
+        return (f"L={self.ld.pc()} loaded={1 if self.th._loaded else 0} ins={getattr(self.th, '_appended_count', '?')} "
+                f"strs={enc_strs(self.th._loaded_strings)} events={enc_list(ids)} "
+                f"store={enc_strs(self.inner._storage)} | " + " | ".join(parts))
+
+
+def thm_impl(case, observer=None, finale=None):
+    M = fixed_module()
+    if M is None:
+        raise RuntimeError("no repaired history module available")
+    real_threading = M.threading
+    out = []
+    r = None
+    try:
+        r = ThRunM(M, case["old"], case["pre"])
+        out.append(r.line())
+        for op in case["ops"]:
+            r.step(op)
+            out.append(r.line())
+            if observer:
+                observer(r, op)
+        if finale:
+            finale(r)
+    finally:
+        if r is not None:
+            r.close()
+        M.threading = real_threading
+    return out
+
+
+def thm_model_lines(case):
+    out = ["mnew " + enc_strs(case["old"]) + " " + enc_strs(case["pre"])]
+    for op in case["ops"]:
+        if op[0] == "c":
+            out.append(f"m c {op[1]} {op[2]}")
+        elif op[0] == "l":
+            out.append(f"m l {op[1]}")
+        elif op[0] == "app":
+            out.append("m app " + enc_str(op[1]))
+        else:
+            out.append("m nop")
+    return out
+
+
+def thm_oracle(case):
+    """the property of `thx_oracle`, for every one of several simultaneous load() calls"""
+    v = []
+    tag = "" if FIXED else "[/repo + proposed_fixes/C13-threaded-append.diff] "
+    hist = list(case["old"]) + list(case["pre"])
+    calls = {}      # role -> {"at_call", "at_read", "read_done", "checked"}
+    failed = [False]
+
+    def bad(site, cond, msg):
+        v.append({"signature": f"{tag}{site} | several simultaneous load() calls: {cond}", "msg": msg})
+
+    def check_completed(r, role):
+        c = calls[role]
+        got = list(r.outs[role])
+        exp = list(c["at_read"] if c["at_read"] is not None else hist)
+        v0 = list(c["at_call"])[::-1]
+        msg = (f"old={case['old']!r} pre={case['pre']!r} schedule={case['ops']!r}: {role} yielded {got!r}; history "
+               f"at its call {v0!r}, at its final read {exp[::-1]!r}")
+        if sorted({x for x in got if got.count(x) > 1}):
+            bad("ThreadedHistory.load", "entry yielded twice", msg)
+        if failed[0]:
+            return
+        if [x for x in exp if x not in got]:
+            bad("ThreadedHistory.load", "entry never yielded", msg)
+        if [x for x in got if x not in exp]:
+            bad("ThreadedHistory.load", "yields an entry that was not appended before its final read", msg)
+        if [x for x in got if x in v0] != v0:
+            bad("ThreadedHistory.load", "order of the entries that existed at the call", msg)
+        if len(exp) == len(v0) and got != v0:
+            bad("ThreadedHistory.load", "differs from inline load (no append meanwhile)", msg)
+
+    def cache_check(r):
+        if r.ld.phase == "fin" and not failed[0] and r.th.get_strings() != hist:
+            bad("ThreadedHistory.get_strings", "cache differs from the history after loading",
+                f"schedule={case['ops']!r}: get_strings()={r.th.get_strings()!r} history={hist!r}")
+
+    def observer(r, op):
+        k = op[0]
+        if k == "app":
+            hist.append(op[1])
+        elif k == "l" and op[1] == "fail":
+            failed[0] = r.ld.failed
+        elif k == "c" and r.did:
+            role = "C%d" % op[1]
+            if op[2] == "start":
+                calls[role] = {"at_call": list(hist), "at_read": None, "read_done": False, "checked": False}
+            elif op[2] == "read":
+                calls[role]["at_read"] = list(hist)
+                calls[role]["read_done"] = bool(r.th._loaded)
+            elif op[2] == "cancel":
+                calls[role]["checked"] = True
+        for role, c in calls.items():
+            if not c["checked"] and role in r.s.finished:
+                c["checked"] = True
+                check_completed(r, role)
+        n_active = sum(1 for role in calls if r.active(role))
+        if len(r.th._string_load_events) != n_active:
+            bad("ThreadedHistory.load", "registered events != calls in progress",
+                f"schedule={case['ops']!r}: {len(r.th._string_load_events)} event(s), {n_active} call(s) in progress")
+        cache_check(r)
+
+    def finale(r):
+        global _TH_HANG
+        if _TH_HANG:
+            return
+        seen_final = {role: (r.active(role) and r.s.at.get(role) == "unlocked" and c["read_done"])
+                      for role, c in calls.items()}
+        r.s.set_free()
+        for role, c in calls.items():
+            if c["checked"] or _TH_HANG:
+                continue
+            t = r.cthreads[role]
+            own = lambda role=role: [e for e in r.th._string_load_events if getattr(e, "owner", None) == role]
+            if not _await_consumer(r.th, t, own, 20):
+                _TH_HANG = True
+                bad("ThreadedHistory.load", "never completes",
+                    f"old={case['old']!r} pre={case['pre']!r} after schedule {case['ops']!r} the threads ran freely "
+                    f"and load() call {role} did not finish (yielded {r.outs[role]!r})")
+                return
+            c["checked"] = True
+            if not seen_final[role]:
+                c["at_read"] = None
+            check_completed(r, role)
+        lt = r.th._load_thread
+        if lt is not None and not _TH_HANG:
+            lt.join(10)
+            if not lt.is_alive():
+                r.ld.phase = "fin"
+                cache_check(r)
+
+    lines = thm_impl(case, observer, finale)
+    if any(l.startswith("impl-exception") for l in lines):
+        bad("ThreadedHistory", "exception", str(lines[-1]))
+    return v
+
+
+class CtlM:
+    """control skeleton of `stepM`, used only to enumerate schedules whose steps are (mostly) enabled; it does
+    not track the events, so a `wait` may be a stutter - on both sides"""
+
+    def __init__(self, nstore, ncons):
+        self.l, self.rem, self.napp, self.loaded, self.nstore = "-", 0, 0, False, nstore
+        self.left = 0
+        self.c = ["-"] * ncons
+        self.saw = [False] * ncons
+        self.apps = self.cancels = self.fails = 0
+
+    def copy(self):
+        o = CtlM(self.nstore, len(self.c))
+        o.__dict__.update({k: (list(v) if isinstance(v, list) else v) for k, v in self.__dict__.items()})
+        return o
+
+    def enabled(self, max_app, max_cancel, max_fail):
+        e = []
+        for i, c in enumerate(self.c):
+            if c == "-":
+                if i == 0 or self.c[i - 1] != "-":
+                    e.append(["c", i, "start"])
+            elif c in ("wait", "read", "yield"):
+                e.append(["c", i, c])
+                if self.cancels < max_cancel:
+                    e.append(["c", i, "cancel"])
+        m = {"start": "reset", "notify": "notify", "notifyFinal": "final", "loop": "set"}
+        if self.l in m:
+            e.append(["l", m[self.l]])
+        if self.l == "iter":
+            e.append(["l", "append" if self.rem else "done"])
+        if self.fails < max_fail and (self.l == "start" or (self.l == "iter" and self.rem and self.napp)):
+            e.append(["l", "fail"])
+        if self.apps < max_app and self.c[0] != "-":
+            e.append(["app"])
+        return e
+
+    def do(self, op):
+        if op[0] == "c":
+            i, w = op[1], op[2]
+            if w == "start":
+                self.c[i] = "wait"
+                if self.l == "-":
+                    self.l = "start"
+            elif w == "wait":
+                self.c[i] = "read"
+            elif w == "read":
+                self.c[i] = "yield"
+                self.saw[i] = self.loaded
+            elif w == "yield":
+                self.c[i] = "done" if self.saw[i] else "wait"
+            else:
+                self.c[i] = "done"
+                self.cancels += 1
+        elif op[0] == "app":
+            self.apps += 1
+            self.nstore += 1
+        else:
+            w = op[1]
+            if w == "reset":
+                self.l, self.rem = "iter", self.nstore
+            elif w == "append":
+                self.l, self.rem, self.napp = "notify", self.rem - 1, self.napp + 1
+            elif w in ("notify", "final"):
+                n = sum(1 for c in self.c if c in ("wait", "read", "yield"))
+                after = "fin" if self.loaded else "iter"
+                self.l, self.left = ("loop", n - 1) if n else (after, 0)
+            elif w == "set":
+                if self.left > 0:
+                    self.left -= 1
+                else:
+                    self.l = "fin" if self.loaded else "iter"
+            elif w == "done":
+                self.l, self.loaded = "notifyFinal", True
+            elif w == "fail":
+                self.l, self.rem = "iter", 0
+                self.fails += 1
+
+
+def thm_schedules(nstore, ncons, depth, max_app, max_cancel, max_fail):
+    out = []
+
+    def go(ctl, sched):
+        en = ctl.enabled(max_app, max_cancel, max_fail)
+        if len(sched) == depth or not en:
+            out.append(list(sched))
+            return
+        for op in en:
+            c2 = ctl.copy()
+            c2.do(op)
+            sched.append(op)
+            go(c2, sched)
+            sched.pop()
+
+    go(CtlM(nstore, ncons), [])
+    return out
+
+
+def _label_m(sched):
+    n, ops = 0, []
+    for op in sched:
+        if op[0] == "app":
+            n += 1
+            ops += [["app", "new%d" % n], ["afin"]]
+        else:
+            ops.append(list(op))
+    return ops
+
+
+def thm_exhaustive(tier):
+    plan = ([(1, 2, 6, 1, 0, 0), (0, 2, 4, 1, 1, 0)] if tier == "quick"
+            else [(1, 2, 7, 1, 0, 0), (0, 2, 7, 1, 1, 0), (1, 2, 6, 2, 1, 0), (2, 2, 7, 0, 0, 1)])
+    for nstore, ncons, depth, apps, cancels, fails in plan:
+        old = ["o%d" % i for i in range(nstore)]
+        for sched in thm_schedules(nstore, ncons, depth, apps, cancels, fails):
+            yield {"kind": "thm", "old": old, "pre": [], "ops": _label_m(sched)}
+
+
+def rand_thm_case(rng):
+    old = ["o%d" % i for i in range(rng.choice([0, 1, 2, 3]))]
+    pre = ["p0"] if rng.random() < 0.2 else []
+    n = rng.choice([2, 2, 3])
+    ctl = CtlM(len(old) + len(pre), n)
+    max_app, max_cancel, max_fail = rng.choice([0, 1, 2, 3]), rng.choice([0, 1, 2]), rng.choice([0, 0, 0, 1])
+    sched = []
+    for _ in range(rng.choice([10, 20, 40, 70])):
+        en = ctl.enabled(max_app, max_cancel, max_fail)
+        if not en:
+            break
+        w = [(0.3 if (op[0] == "app" or op[-1] in ("cancel", "fail")) else 1.0) for op in en]
+        op = rng.choices(en, w)[0]
+        ctl.do(op)
+        sched.append(op)
+    ops = _label_m(sched)
+    if rng.random() < 0.5:
+        # let the appending threads return later
+        fins = [i for i, op in enumerate(ops) if op == ["afin"]]
+        for i in reversed(fins):
+            ops.pop(i)
+            ops.insert(min(len(ops), i + rng.randrange(0, 6)), ["afin"])
+    return {"kind": "thm", "old": old, "pre": pre, "ops": ops}
+
+
 def th2_run(case, finale=None):
     real_threading = H.threading
     out = []
@@ -730,7 +1883,13 @@ def th2_run(case, finale=None):
 def th2_model_lines(case):
     out = ["nnew " + enc_strs(case["old"]) + " " + enc_strs(case["pre"])]
     for op in case["ops"]:
-        out.append(f"nc {op[1]} {op[2]}" if op[0] == "c" else f"nl {op[1]}")
+        if op[0] == "c":
+            out.append(f"nc {op[1]} {op[2]}")
+        elif FIXED and op[1] in ("reset", "snap"):
+            # repaired code: list reset + snapshot are ONE locked block = the two model steps at once
+            out.append("nl resetsnap" if op[1] == "reset" else "nl nop")
+        else:
+            out.append(f"nl {op[1]}")
     return out
 
 
@@ -816,29 +1975,55 @@ def th_model_lines(case):
 
 
 # ------------------------------------------------------------------ plugin interface
+def _skip(case):
+    """cases of the repaired code when no repaired module can be had (the proposed diff does not apply to
+    the tree under test): nothing is compared"""
+    return case["kind"] in ("thx", "thm") and fixed_module() is None
+
+
 def model_lines(case):
+    if _skip(case):
+        return []
     k = case["kind"]
     if k == "file":
         return file_model_lines(case)
     if k == "codec":
         return codec_model_lines(case)
     if k == "th":
-        return th_model_lines(case)
+        return thx_model_lines(th_to_thx(case)) if FIXED else th_model_lines(case)
     if k == "th2":
         return th2_model_lines(case)
+    if k == "thx":
+        return thx_model_lines(case)
+    if k == "thm":
+        return thm_model_lines(case)
+    if k == "mem":
+        return mem_model_lines(case)
+    if k == "mw":
+        return mw_model_lines(case)
     raise ValueError(k)
 
 
 def impl_lines(case):
+    if _skip(case):
+        return []
     k = case["kind"]
     if k == "file":
         return file_impl(case)
     if k == "codec":
         return codec_impl(case)
     if k == "th":
-        return th_impl(case)
+        return thx_impl(th_to_thx(case)) if FIXED else th_impl(case)
     if k == "th2":
         return th2_run(case)
+    if k == "thx":
+        return thx_impl(case)
+    if k == "thm":
+        return thm_impl(case)
+    if k == "mem":
+        return mem_impl(case)
+    if k == "mw":
+        return mw_impl(case)
     raise ValueError(k)
 
 
@@ -910,7 +2095,8 @@ def file_oracle(case):
     nfresh = [0]
 
     def pattern(ss):
-        return [("ok", s[3]) if s[0] == "ok" else ("torn",) for s in ss]
+        # complete foreign lines between records contribute nothing; a cut one may leave <=1 damaged entry
+        return [("ok", s[3]) if s[0] == "ok" else ("torn",) for s in ss if s[0] != "foreign"]
 
     def check_load(p, ss, where):
         try:
@@ -919,10 +2105,11 @@ def file_oracle(case):
             bad("FileHistory.load_history_strings", "raises", f"{where}: {type(e).__name__}: {e}")
             return None
         if not _match(pattern(ss), got[::-1]):
-            intact = all(s[0] == "ok" for s in ss)
+            intact = all(s[0] in ("ok", "foreign") for s in ss)
             bad("FileHistory.load_history_strings",
                 "roundtrip" if intact else "torn file: completed entry lost, damaged or reordered",
-                f"{where}: expected {[s[3] if s[0] == 'ok' else '<=1 damaged' for s in ss][::-1]!r} got {got!r}")
+                f"{where}: expected "
+                f"{[s[3] if s[0] == 'ok' else '<=1 damaged' for s in ss if s[0] != 'foreign'][::-1]!r} got {got!r}")
         return got
 
     for op in case["ops"]:
@@ -971,6 +2158,11 @@ def file_oracle(case):
                 list(FileHistory(path).load_history_strings())
             except Exception as e:
                 bad("FileHistory.load_history_strings", "raises", f"raw file {op[1]!r}: {type(e).__name__}: {e}")
+        elif k == "rawapp":
+            a = os.path.getsize(path) if os.path.exists(path) else 0
+            with open(path, "ab") as f:
+                f.write(bytes(op[1]))
+            segs.append(("foreign", a, a + len(op[1]), None))
         elif k in ("load", "get"):
             pass
     return v
@@ -985,9 +2177,27 @@ def th_oracle(case):
     entry once."""
     v = []
     state = {"inserted": list(case["old"]) + list(case["pre"]), "overlap": False, "was_done": True,
-             "first": True}
+             "first": True, "win": False}
+
+    def check_cache(r):
+        # once the loader thread has ended (and no append_string is half way) the cache must be the
+        # whole history, every entry once, in order.  "win": an append_string was under way while the
+        # loader thread stood between its creation and the inner history's snapshot - the region of
+        # F5a / F5c (over-approximated); outside that region the cache must be right.
+        if "L" in r.s.finished and r.athread is None and r.th.get_strings() != state["inserted"]:
+            cond = ("append_string overlaps the loader's list reset / snapshot" if state["win"]
+                    else "no append_string during the loader's list reset / snapshot")
+            v.append({"signature": f"ThreadedHistory.get_strings | {cond}: cache differs from the history",
+                      "msg": f"old={case['old']!r} pre={case['pre']!r} schedule={case['ops']!r}: "
+                             f"get_strings()={r.th.get_strings()!r}, appended so far {state['inserted']!r}"})
 
     def observer(r, op):
+        if r.s.at.get("L") in ("start", "called") and (op[0] in ("ains", "astore") or r.athread is not None):
+            state["win"] = True
+        observer1(r, op)
+        check_cache(r)
+
+    def observer1(r, op):
         # "overlap" is exactly the complement of the hypothesis of the Lean theorem no_overlap_exact
         # (`allowed`): an append_string whose insert happens while a load() call is in progress, or
         # the first load() starting while an append_string is between its insert and its store.
@@ -1042,20 +2252,45 @@ def th_oracle(case):
             r.athread.join(8)
         check_completed(r)
 
-    lines = th_impl(case, observer, finale)
+    def finale_all(r):
+        finale(r)
+        if not _TH_HANG:
+            r.s.set_free()
+            if r.athread is not None:
+                r.athread.join(8)
+                if not r.athread.is_alive():
+                    r.athread = None
+            lt = r.th._load_thread
+            if lt is not None:
+                lt.join(8)
+                if not lt.is_alive():
+                    r.s.finish("L")
+                    check_cache(r)
+
+    lines = th_impl(case, observer, finale_all)
     if any(l.startswith("impl-exception") for l in lines):
         v.append({"signature": "ThreadedHistory | exception", "msg": str(lines[-1])})
     return v
 
 
 def oracle(case):
+    if _skip(case):
+        return []
     k = case["kind"]
     if k == "file":
         v = file_oracle(case)
     elif k == "th":
-        v = th_oracle(case)
+        v = thx_oracle(th_to_thx(case)) if FIXED else th_oracle(case)
     elif k == "th2":
         v = th2_oracle(case)
+    elif k == "thx":
+        v = thx_oracle(case)
+    elif k == "thm":
+        v = thm_oracle(case)
+    elif k == "mem":
+        v = mem_oracle(case)
+    elif k == "mw":
+        v = mw_oracle(case)
     else:
         v = []
         for s in case["strs"]:
@@ -1099,8 +2334,10 @@ def rand_file_case(rng):
     did_trunc = False
     for _ in range(n_ops):
         r = rng.random()
-        if r < 0.55:
+        if r < 0.52:
             ops.append(["app", rng.randrange(4), rng.choice(TS_POOL), rand_string(rng)])
+        elif r < 0.60:
+            ops.append(["rawapp", list(b"".join(rng.choice(FOREIGN_LINES) for _ in range(rng.randrange(1, 4))))])
         elif r < 0.65:
             ops.append(["load", rng.randrange(4)])
         elif r < 0.75:
@@ -1315,6 +2552,187 @@ def rand_th_case(rng, with_appends):
     return {"kind": "th", "old": old, "pre": pre, "ops": label_appends(sched)}
 
 
+class CtlX:
+    """control skeleton of `stepF`, used only to enumerate schedules whose steps are enabled"""
+
+    __slots__ = ("l", "rem", "napp", "c", "ev", "loaded", "nstore", "apps", "sawdone", "cancels", "fails",
+                 "calls", "pend")
+
+    def __init__(self, nstore):
+        self.l, self.rem, self.napp = "-", 0, 0
+        self.c, self.ev, self.loaded, self.sawdone = "-", False, False, False
+        self.nstore = nstore
+        self.apps = self.cancels = self.fails = self.calls = 0
+        self.pend = False
+
+    def copy(self):
+        o = CtlX(self.nstore)
+        for a in self.__slots__:
+            setattr(o, a, getattr(self, a))
+        return o
+
+    def enabled(self, max_app, max_cancel, max_fail, max_calls):
+        e = []
+        if self.c in ("-", "done") and self.calls < max_calls:
+            e.append("cstart")
+        if self.c == "wait" and self.ev:
+            e.append("cwait")
+        if self.c == "read":
+            e.append("cread")
+        if self.c == "yield":
+            e.append("cyield")
+        if self.c in ("wait", "read", "yield") and self.cancels < max_cancel:
+            e.append("ccancel")
+        if self.l == "start":
+            e.append("lreset")
+        if self.l == "iter":
+            e.append("lappend" if self.rem else "ldone")
+        if self.l == "notify":
+            e.append("lnotify")
+        if self.l == "notifyFinal":
+            e.append("lfinal")
+        # the inner history can raise inside the locked reset block, or when a further item is requested
+        # (the first item is requested inside that block)
+        if self.fails < max_fail and (self.l == "start" or (self.l == "iter" and self.rem and self.napp)):
+            e.append("lfail")
+        if self.pend:
+            e.append("afin")
+        elif self.apps < max_app and self.calls:
+            e.append("app")
+        return e
+
+    def do(self, k):
+        if k == "cstart":
+            if self.l == "-":
+                self.l = "start"
+            self.c, self.ev, self.sawdone = "wait", True, False
+            self.calls += 1
+        elif k == "cwait":
+            self.c = "read"
+        elif k == "cread":
+            self.ev = False
+            self.sawdone = self.loaded
+            self.c = "yield"
+        elif k == "cyield":
+            self.c = "done" if self.sawdone else "wait"
+        elif k == "ccancel":
+            self.c = "done"
+            self.cancels += 1
+        elif k == "lreset":
+            self.l, self.rem = "iter", self.nstore
+        elif k == "lappend":
+            self.l, self.rem, self.napp = "notify", self.rem - 1, self.napp + 1
+        elif k == "lnotify":
+            self.l, self.ev = "iter", True
+        elif k == "ldone":
+            self.l, self.loaded = "notifyFinal", True
+        elif k == "lfinal":
+            self.l, self.ev = "fin", True
+        elif k == "lfail":
+            self.l, self.rem = "iter", 0
+            self.fails += 1
+        elif k == "app":
+            self.apps += 1
+            self.nstore += 1
+            self.pend = self.split
+        elif k == "afin":
+            self.pend = False
+
+    split = False     # True: the return of the appending thread (`afin`) is a step of its own
+
+
+def all_schedules_x(nstore, depth, max_app, max_cancel=0, max_fail=0, max_calls=1, split=False):
+    """maximal schedules (length == depth, or nothing enabled) of enabled steps of the repaired code"""
+    out = []
+
+    def go(ctl, sched):
+        en = ctl.enabled(max_app, max_cancel, max_fail, max_calls)
+        if len(sched) == depth or not en:
+            out.append(list(sched))
+            return
+        for k in en:
+            c2 = ctl.copy()
+            c2.do(k)
+            sched.append(k)
+            go(c2, sched)
+            sched.pop()
+
+    CtlX.split = split
+    try:
+        go(CtlX(nstore), [])
+    finally:
+        CtlX.split = False
+    return out
+
+
+def label_apps(sched):
+    """name the appended strings; an `app` whose thread is not let go explicitly returns at once"""
+    n = 0
+    ops = []
+    explicit = "afin" in sched
+    for k in sched:
+        if k == "app":
+            n += 1
+            ops.append(["app", "new%d" % n])
+            if not explicit:
+                ops.append(["afin"])
+        else:
+            ops.append([k])
+    return ops
+
+
+def thx_exhaustive(tier):
+    # (old, pre, depth, appends, cancellations, failures of the inner history, load() calls)
+    if tier == "quick":
+        plan = [([], [], 40, 0, 0, 0, 1), (["o1"], [], 40, 0, 0, 0, 1), ([], ["p1"], 7, 1, 0, 0, 1),
+                (["o1", "o2"], [], 8, 1, 0, 0, 1), (["o1"], [], 6, 2, 0, 0, 1),
+                (["o1"], [], 6, 1, 1, 0, 2), (["o1", "o2"], [], 9, 0, 0, 1, 1), (["o1"], [], 6, 1, 0, 1, 1),
+                (["o1"], [], 6, 1, 0, 0, 1, True)]
+    else:
+        plan = [([], [], 40, 0, 0, 0, 2), (["o1"], [], 40, 0, 0, 0, 1), ([], ["p1"], 20, 0, 0, 0, 2),
+                (["o1", "o2"], [], 40, 0, 0, 0, 1), ([], ["p1"], 11, 1, 0, 0, 2), (["o1", "o2"], [], 11, 1, 0, 0, 1),
+                (["o1"], ["p1"], 9, 1, 1, 0, 2), (["o1"], [], 9, 2, 0, 0, 2), ([], [], 8, 2, 1, 0, 2),
+                (["o1", "o2"], [], 13, 0, 0, 1, 1), (["o1", "o2"], [], 9, 1, 1, 1, 2),
+                (["o1"], [], 9, 1, 0, 0, 1, True), ([], ["p1"], 8, 2, 0, 0, 1, True)]
+    for old, pre, depth, apps, cancels, fails, calls, *split in plan:
+        for sched in all_schedules_x(len(old) + len(pre), depth, apps, cancels, fails, calls, bool(split)):
+            yield {"kind": "thx", "old": old, "pre": pre, "ops": label_apps(sched)}
+
+
+def rand_thx_case(rng):
+    old = ["o%d" % i for i in range(rng.choice([0, 1, 2, 3, 5]))]
+    pre = ["p%d" % i for i in range(rng.choice([0, 0, 1, 2]))]
+    ctl = CtlX(len(old) + len(pre))
+    sched = []
+    max_app = rng.choice([0, 1, 2, 3, 4])
+    max_cancel = rng.choice([0, 0, 1, 2])
+    max_fail = rng.choice([0, 0, 0, 1])
+    max_calls = rng.choice([1, 2, 3])
+    CtlX.split = rng.random() < 0.5
+    try:
+        return _rand_thx_body(rng, old, pre, ctl, sched, max_app, max_cancel, max_fail, max_calls)
+    finally:
+        CtlX.split = False
+
+
+def _rand_thx_body(rng, old, pre, ctl, sched, max_app, max_cancel, max_fail, max_calls):
+    for _ in range(rng.choice([10, 20, 40, 80])):
+        en = ctl.enabled(max_app, max_cancel, max_fail, max_calls)
+        if not en:
+            break
+        if rng.random() < 0.05:
+            # a disabled step must be a no-op on both sides
+            k = rng.choice(["cwait", "cread", "cyield", "ccancel", "lreset", "lappend", "lnotify", "ldone", "lfinal"])
+            if k not in ctl.enabled(9, 9, 0, 9):
+                sched.append(k)
+                continue
+        weights = [(0.3 if k in ("app", "ccancel", "lfail") else 1.0) for k in en]
+        k = rng.choices(en, weights)[0]
+        ctl.do(k)
+        sched.append(k)
+    return {"kind": "thx", "old": old, "pre": pre, "ops": label_apps(sched)}
+
+
 def rand_th2_case(rng):
     old = ["o%d" % i for i in range(rng.choice([0, 0, 1, 2]))]
     pre = ["p0"] if rng.random() < 0.2 else []
@@ -1441,6 +2859,69 @@ def th2_systematic(tier):
                 yield {"kind": "th2", "old": old, "pre": [], "ops": prefix + ops + c(1 - first)}
 
 
+# -- base class / in-memory backends, several writers
+MEM_OPS = [["app", "x"], ["load"], ["get"], ["gnew"], ["gnext"]]
+
+
+def mem_exhaustive(tier):
+    depth = 4 if tier == "quick" else 5
+    for init in ([], ["a", "b"]):
+        for n in range(depth + 1):
+            for tup in itertools.product(range(len(MEM_OPS)), repeat=n):
+                ops, k = [], 0
+                for i in tup:
+                    if MEM_OPS[i][0] == "app":
+                        k += 1
+                        ops.append(["app", "n%d" % k])
+                    else:
+                        ops.append(list(MEM_OPS[i]))
+                if init or n <= depth - 1:
+                    yield {"kind": "mem", "backend": "mem", "init": init, "ops": ops}
+    for n in range(4):
+        for tup in itertools.product(range(len(MEM_OPS)), repeat=n):
+            yield {"kind": "mem", "backend": "dummy", "init": [],
+                   "ops": [["app", "z"] if MEM_OPS[i][0] == "app" else list(MEM_OPS[i]) for i in tup]}
+
+
+def rand_mem_case(rng):
+    init = [rand_string(rng, 4) for _ in range(rng.choice([0, 1, 2, 4]))]
+    ops = []
+    for _ in range(rng.randrange(1, 14)):
+        k = rng.choice(["app", "app", "load", "get", "gnew", "gnext", "gnext", "gnext"])
+        ops.append(["app", rand_string(rng, 4)] if k == "app" else [k])
+    return {"kind": "mem", "backend": "mem" if rng.random() < 0.9 else "dummy", "init": init, "ops": ops}
+
+
+def mw_exhaustive(tier):
+    """two processes with one entry each (one or two lines): every order of their write() calls; three
+    processes / two entries per process: every order up to the tier's length"""
+    ents = ["a", "a\nb", "", "+"]
+    for e0 in ents:
+        for e1 in ents:
+            n = 6 if tier == "quick" else 7
+            for order in itertools.product([0, 1], repeat=n):
+                yield {"kind": "mw", "procs": [[["T", e0]], [["U", e1]]], "order": list(order)}
+    n = 5 if tier == "quick" else 7
+    for order in itertools.product([0, 1, 2], repeat=n):
+        yield {"kind": "mw", "procs": [[["T", "a"], ["T", "x\ny"]], [["U", "b"]], [["V", "\n"]]], "order": list(order)}
+
+
+def rand_mw_case(rng):
+    np_ = rng.choice([1, 2, 2, 3])
+    procs = [[[rng.choice(TS_POOL), rand_string(rng, 5)] for _ in range(rng.choice([1, 1, 2, 3]))] for _ in range(np_)]
+    total = sum(len(s.split("\n")) + 1 for p in procs for _, s in p)
+    if rng.random() < 0.4:
+        # whole records alternating: the situation the property speaks about
+        order = []
+        left = [[len(s.split("\n")) + 1 for _, s in p] for p in procs]
+        while any(left):
+            i = rng.choice([j for j in range(np_) if left[j]])
+            order += [i] * left[i].pop(0)
+    else:
+        order = [rng.randrange(np_ + (1 if rng.random() < 0.1 else 0)) for _ in range(total + rng.randrange(0, 4))]
+    return {"kind": "mw", "procs": procs, "order": order}
+
+
 _EXHAUSTIVE_DONE = set()
 
 
@@ -1476,6 +2957,23 @@ def exhaustive_cases(tier, rng):
             for b in one:
                 for c in one:
                     yield entries_case([a, b, c], insts=[0, 1, 0])
+    # every line-boundary character of str.splitlines() (and the format's own '+', '#'): 1 entry len<=2,
+    # two entries of one character each
+    for s1 in strings_upto(SEP_ALPHA, 2):
+        if not all(c in ALPHA for c in s1):
+            yield entries_case([s1])
+    for a in SEP_ALPHA:
+        for b in SEP_ALPHA:
+            if not (a in ALPHA and b in ALPHA):
+                yield entries_case([a, b], insts=[0, 1])
+    # entries made of '+' / newlines only, the empty entry repeated
+    for e in (["+++"], ["\n\n\n"], ["", "", ""], ["+\n+\n+"], ["\n+"], ["+", ""], ["", "+"]):
+        yield entries_case(e, insts=[0, 1, 0][:len(e)])
+    # foreign lines (comments of other tools, blank lines, text) in front of / between / behind records
+    for fl in FOREIGN_LINES:
+        for e in ("a", "+\n#", ""):
+            yield {"kind": "file", "ops": [["rawapp", list(fl)], ["app", 0, "T", e], ["rawapp", list(fl + fl)],
+                                           ["app", 1, "T", "x\ny"], ["rawapp", list(fl)], ["fresh"], ["truncall"]]}
     # recovery after a torn write: every cut inside the last record of a 2-entry file, then one more append
     base = ["a\n+", "\U0001F600#"] if quick else ["a\n+", "\U0001F600#", "\u2028\r", "", "\n"]
     for e in base:
@@ -1488,8 +2986,16 @@ def exhaustive_cases(tier, rng):
     for k in range(0, (3 if quick else 4) + 1):
         for tup in itertools.product(RAW_ALPHA, repeat=k):
             yield {"kind": "file", "ops": [["raw", list(tup)], ["fresh"], ["truncall"]]}
-    # --- threaded, exhaustive schedules
-    yield from th_exhaustive(tier)
+    # --- base class with the in-memory backends; several processes writing one file
+    yield from mem_exhaustive(tier)
+    yield from mw_exhaustive(tier)
+    # --- threaded, exhaustive schedules: the code as it is in the tree ...
+    if not FIXED:
+        yield from th_exhaustive(tier)
+    # ... and the code with the repair of F5 (the tree's own, or the tree + the proposed diff)
+    if fixed_module() is not None:
+        yield from thx_exhaustive(tier)
+        yield from thm_exhaustive(tier)
     # --- several simultaneous load() calls
     yield from th2_systematic(tier)
     for nstore, ncons, depth in ([(0, 2, 7)] if quick else [(0, 2, 10), (1, 2, 10)]):
@@ -1507,24 +3013,38 @@ def random_cases(tier, rng):
         yield rand_file_case(rng)
     for _ in range(300 if quick else 6000):
         yield rand_raw_case(rng)
-    for _ in range(300 if quick else 8000):
-        yield rand_th_case(rng, with_appends=rng.random() < 0.6)
+    for _ in range(200 if quick else 2000):
+        yield rand_mem_case(rng)
+    for _ in range(200 if quick else 2000):
+        yield rand_mw_case(rng)
+    for n in range(300 if quick else 8000):
+        if not FIXED:
+            yield rand_th_case(rng, with_appends=rng.random() < 0.6)
+        if fixed_module() is not None and (quick or FIXED or n % 2 == 0):
+            yield rand_thx_case(rng)
+    if fixed_module() is not None:
+        for _ in range(60 if quick else 1500):
+            yield rand_thm_case(rng)
 
 
 def nontrivial(case):
     k = case["kind"]
     if k == "file":
         return any((op[0] == "app" and op[3]) or (op[0] == "raw" and op[1]) for op in case["ops"])
-    if k == "th":
+    if k in ("th", "thx"):
         return any(op[0] in ("cwait", "cread", "cyield") for op in case["ops"])
-    if k == "th2":
+    if k in ("th2", "thm"):
         return len({op[1] for op in case["ops"] if op[0] == "c" and op[2] == "start"}) >= 2
+    if k == "mem":
+        return any(op[0] == "app" for op in case["ops"]) or bool(case["init"])
+    if k == "mw":
+        return len(case["procs"]) >= 2 and len(set(case["order"])) >= 2
     return True
 
 
 def distribution(cases):
-    d = {"kind": {}, "file_ops": {}, "th_steps": {}, "th_len": {}, "entries_per_file": {}, "th2_consumers": {},
-         "th2_len": {}}
+    d = {"kind": {}, "file_ops": {}, "th_steps": {}, "th_len": {}, "thx_steps": {}, "thx_len": {},
+         "entries_per_file": {}, "th2_consumers": {}, "th2_len": {}}
     for c in cases:
         k = c["kind"]
         d["kind"][k] = d["kind"].get(k, 0) + 1
@@ -1534,12 +3054,12 @@ def distribution(cases):
                 d["file_ops"][op[0]] = d["file_ops"].get(op[0], 0) + 1
                 n += op[0] == "app"
             d["entries_per_file"][str(n)] = d["entries_per_file"].get(str(n), 0) + 1
-        elif k == "th":
+        elif k in ("th", "thx"):
             for op in c["ops"]:
-                d["th_steps"][op[0]] = d["th_steps"].get(op[0], 0) + 1
+                d[k + "_steps"][op[0]] = d[k + "_steps"].get(op[0], 0) + 1
             b = str(len(c["ops"]) // 5 * 5)
-            d["th_len"][b] = d["th_len"].get(b, 0) + 1
-        elif k == "th2":
+            d[k + "_len"][b] = d[k + "_len"].get(b, 0) + 1
+        elif k in ("th2", "thm"):
             n = str(len({op[1] for op in c["ops"] if op[0] == "c" and op[2] == "start"}))
             d["th2_consumers"][n] = d["th2_consumers"].get(n, 0) + 1
             b = str(len(c["ops"]) // 5 * 5)
